@@ -21,7 +21,9 @@ assert os.path.realpath(os.path.dirname(os.path.dirname(excel2pycl.__file__))) =
     f'excel2pycl imported from {excel2pycl.__file__}, expected {REPO}'
 
 
-class CaseTimeout(Exception):
+class CaseTimeout(BaseException):
+    """raised by the alarm inside the code under test: a BaseException, so that an `except Exception` of the library (IFERROR's own
+    handler, for one) cannot swallow it and carry on"""
     pass
 
 
@@ -38,6 +40,14 @@ def with_timeout(seconds, fn, *a, **kw):
     finally:
         signal.setitimer(signal.ITIMER_REAL, 0)
         signal.signal(signal.SIGALRM, old)
+
+
+EVAL_LIMIT = 30.0
+
+
+def read_cell(ex, cell, limit=EVAL_LIMIT):
+    """ex.get_cell(cell).value under a wall-clock limit: a cell whose evaluation does not come back is an outcome, not a hung check"""
+    return with_timeout(limit, lambda: ex.get_cell(cell).value)
 
 
 # ----------------------------------------------------------------- workbooks
@@ -264,7 +274,7 @@ class Probe:
                 out.append(('texc', self.terr[i]))
                 continue
             try:
-                out.append(('val', ex.get_cell(Cell(0, self.col, i)).value))
+                out.append(('val', read_cell(ex, Cell(0, self.col, i))))
             except BaseException as e:  # noqa
                 if isinstance(e, (KeyboardInterrupt, SystemExit)):
                     raise
@@ -283,7 +293,7 @@ class Probe:
         out = []
         for (s, c, r) in cells:
             try:
-                out.append(('val', ex.get_cell(Cell(s, c, r)).value))
+                out.append(('val', read_cell(ex, Cell(s, c, r))))
             except BaseException as e:  # noqa
                 if isinstance(e, (KeyboardInterrupt, SystemExit)):
                     raise
@@ -314,7 +324,7 @@ class _Session:
                 out.append(('texc', p.terr[i]))
                 continue
             try:
-                out.append(('val', self.ex.get_cell(Cell(0, p.col, i)).value))
+                out.append(('val', read_cell(self.ex, Cell(0, p.col, i))))
             except BaseException as e:  # noqa
                 if isinstance(e, (KeyboardInterrupt, SystemExit)):
                     raise
@@ -340,7 +350,7 @@ def public_path_eval(scratch, sheets, cells, overrides=None, tag='pp', chart_bef
     out = []
     for (s, c, r) in cells:
         try:
-            out.append(('val', ex.get_cell(Cell(s, c, r)).value))
+            out.append(('val', read_cell(ex, Cell(s, c, r))))
         except BaseException as e:  # noqa
             if isinstance(e, (KeyboardInterrupt, SystemExit)):
                 raise
